@@ -8,10 +8,10 @@ src=open('pv/monitors/${p,,}.py').read()
 import re
 for node in ast.parse(src).body:
     if isinstance(node, ast.Assign) and getattr(node.targets[0],'id',None)=='CASES':
-        print(ast.literal_eval(node.value)['quick']*6)
+        print(ast.literal_eval(node.value)['quick']*3)
 PY
 )
   t0=$(date +%s)
-  PV_FLOOR_SCALE=0.0001 /venv/bin/python -m pv.check $p --tier thorough --cases $n --shards 8 --no-evidence > .work/thorough_$p.log 2>&1
+  PV_FLOOR_SCALE=0.0001 /venv/bin/python -m pv.check $p --tier thorough --cases $n --shards 16 --no-evidence > .work/thorough_$p.log 2>&1
   echo "$p exit=$? cases=$n wall=$(( $(date +%s) - t0 ))s $(grep -c '^VIOLATION' .work/thorough_$p.log) violations; $(grep -m1 INCONCL .work/thorough_$p.log | cut -c1-120)"
 done
